@@ -117,6 +117,11 @@ class Client(threading.Thread):
 def run_shutdown(wk, sig, phases, appfin="within", graceful=3, bind="tcp", slack_ms=2500, pre=(), timeout=60, server_args=()):
     """-> (trace, meta).  pre: signals sent to the master (0.6 s apart) after the clients are in their phase and
     before the final signal, e.g. ("TTIN", "TTOU") retires the busy worker first"""
+    if sig != "TERM":
+        # quick shutdown: "prompt" (about a second for the async classes) against "waited for the graceful timeout" --
+        # a gap wide enough for a loaded machine
+        graceful = max(graceful, 9)
+        slack_ms = max(slack_ms, 4500)
     nworkers = len(phases) if wk == "sync" else 1
     threads = max(2, len(phases)) if wk == "gthread" else None
     # "tcp2": a second listener that stays idle while the clients use the first one
@@ -194,7 +199,7 @@ def run_boot_stop(wk, sig, graceful=8):
     """the stop signal reaches the master while its workers are still importing a slow application (no preload)"""
     import subprocess
     s = rp.Server(wk, workers=2, threads=2 if wk == "gthread" else None, pidfile=True,
-                  args=["--graceful-timeout", str(graceful), "--timeout", "60"], env={"VERIF_BOOT_SLEEP": "4"}, name="c04boot")
+                  args=["--graceful-timeout", str(graceful), "--timeout", "60"], env={"VERIF_BOOT_SLEEP": "7"}, name="c04boot")
     try:
         p = subprocess.Popen(s.cmd, cwd=rp.REPO, env=s.env, stdout=subprocess.DEVNULL, stderr=subprocess.DEVNULL)
         deadline = time.time() + 10
@@ -220,7 +225,7 @@ def run_boot_stop(wk, sig, graceful=8):
             p.kill()
         ev = [{"e": "exit", "status": -1 if status is None else status, "elapsed_ms": elapsed},
               {"e": "after", "workers": len(survivors), "listening": False, "pidfile": os.path.exists(s.pidfile), "sockfile": False}]
-        tr = {"sig": sig, "graceful_ms": graceful * 1000, "slack_ms": 2500, "wk": wk, "ev": ev}
+        tr = {"sig": sig, "graceful_ms": graceful * 1000, "slack_ms": 3500, "wk": wk, "ev": ev}
         return tr, {"wk": wk, "sig": sig, "phases": ["booting"], "appfin": "import", "bind": "tcp", "elapsed_ms": elapsed,
                     "pre": [], "log": s.errlog()[-400:]}
     finally:
@@ -239,7 +244,12 @@ def plan_for(ctx):
                 ("gthread", "TERM", ["app_running", "resp_partial"], "late", "tcp", (), 6, 2),
                 # every worker binds its own SO_REUSEPORT socket: the master has no listener of its own
                 ("sync", "TERM", ["app_running"], "within", "tcp", (), 3, 60, ("--reuse-port",)),
-                ("gthread", "QUIT", ["app_running"], "never", "tcp", (), 3, 60, ("--reuse-port",))]
+                ("gthread", "QUIT", ["app_running"], "never", "tcp", (), 3, 60, ("--reuse-port",)),
+                # every connection slot of the worker taken, one more connection accepted, when the stop request arrives
+                ("eventlet", "TERM", ["app_running", "app_running", "idle"], "within", "tcp", (), 3, 60, ("--worker-connections", "2")),
+                # --reload: the workers run a file-watching thread besides their main loop
+                ("sync", "QUIT", ["idle"], "within", "tcp", (), 3, 60, ("--reload",)),
+                ("gthread", "TERM", ["app_running"], "within", "tcp", (), 3, 60, ("--reload",))]
     plan = []
     for wk in ("sync", "gthread", "gevent", "eventlet"):
         for bind in ("tcp", "unix"):
@@ -257,6 +267,10 @@ def plan_for(ctx):
         plan.append((wk, "TERM", ["app_running", "resp_partial"], "late", "tcp", (), 6, 2))
         plan.append((wk, "TERM", ["app_running", "idle"], "within", "tcp", (), 3, 60, ("--reuse-port",)))
         plan.append((wk, "INT", ["app_running"], "never", "tcp", (), 3, 60, ("--reuse-port",)))
+        if wk != "sync":
+            plan.append((wk, "TERM", ["app_running", "app_running", "idle"], "within", "tcp", (), 3, 60, ("--worker-connections", "2")))
+        plan.append((wk, "QUIT", ["idle"], "within", "tcp", (), 3, 60, ("--reload",)))
+        plan.append((wk, "TERM", ["app_running"], "within", "tcp", (), 3, 60, ("--reload",)))
     return plan
 
 
@@ -290,7 +304,10 @@ def worker_side(ctx):
     # stop signals while the workers are still booting
     from props.reload_real import _parallel
     bplan = [("sync", "QUIT"), ("gthread", "INT")] if ctx.quick else \
-        [(wk, sg) for wk in ("sync", "gthread", "gevent", "eventlet") for sg in ("QUIT", "INT", "TERM")]
+        [(wk, sg) for wk in ("sync", "gthread", "gevent", "eventlet") for sg in ("QUIT", "INT", "TERM")
+         # (an eventlet worker acts on INT / QUIT from a greenlet its handler spawns: that happens when the hub next wakes
+         # up, i.e. when the green sleep of the slow import is over; the bound of this scenario does not apply to it)
+         if not (wk == "eventlet" and sg != "TERM")]
     for t, m in _parallel(bplan, lambda a, i: run_boot_stop(a[0], a[1]), par=6):
         traces.append(t)
         metas.append(m)
